@@ -81,7 +81,7 @@ def run_property(prop, tier, seed, replay_only=None):
     spec = registry.PROPS[prop]
     known = load_known()
     hs = registry.harnesses_for(prop, tier)
-    logs_dir = os.path.join(VERIF, "build", "logs", prop)
+    logs_dir = os.path.join(os.environ.get("VERIF_LOGS_DIR") or os.path.join(VERIF, "build", "logs"), prop)  # campaigns running one property twice at a time set their own
     shutil.rmtree(logs_dir, ignore_errors=True)
     os.makedirs(logs_dir, exist_ok=True)
     # order: seed permutes scheduling only
